@@ -218,40 +218,7 @@ func runC09(c *Ctx) {
 		c.Precedes(fn, "refund added to st.gas", StoreTo(`^&st\.gas$`), "sender credit / pool return", Or(add, pool))
 	}
 
-	// ---- call frames -----------------------------------------------------------------------------------
-	snap := CallTo(`^iface:\(kvm\.StateDB\)\.Snapshot$`, "")
-	revert := CallTo(`^iface:\(kvm\.StateDB\)\.RevertToSnapshot$`, "")
-	mutate := Or(CallTo(`^iface:\(kvm\.StateDB\)\.(CreateAccount|SetCode|AddBalance|SubBalance|SetState|Suicide)$`, ""), CallTo(`^\(\*kvm\.KVM\)\.Transfer$|^kvm\.run$`, ""), CallTo(`dyn:kvm\.BlockContext\.Transfer`, ""))
-	for _, name := range []string{"Call", "CallCode", "DelegateCall", "StaticCall", "create"} {
-		fn := c.Fn("kvm", "KVM", name)
-		if fn == nil {
-			continue
-		}
-		c.Precedes(fn, "StateDB.Snapshot()", snap, "state mutation / run", func(in ssa.Instruction) bool {
-			if !mutate(in) {
-				return false
-			}
-			// create bumps the creator's nonce before the snapshot on purpose (it survives a failed creation)
-			return true
-		})
-		c.AtMostOncePerPath(fn, "Snapshot", snap)
-		snaps := findInstrs(fn, snap)
-		if len(snaps) == 1 {
-			sv := pathOf(snaps[0].(*ssa.Call))
-			for _, in := range findInstrs(fn, revert) {
-				a := argPaths(callCommon(in))
-				c.Check("F", fnName(fn)+"/reverts to its own snapshot", len(a) == 2 && a[1] == sv, instrPos(in), 1, describeInstr(in))
-			}
-		}
-		c.errorExitsRevert(fn, revert)
-	}
-	if fn := c.Fn("kvm", "KVM", "create"); fn != nil {
-		bump := CallTo(`^iface:\(kvm\.StateDB\)\.SetNonce$`, `SetNonce\(kvm\.StateDB, call:iface:\(kvm\.ContractRef\)\.Address\(caller\), \(call:iface:\(kvm\.StateDB\)\.GetNonce\(kvm\.StateDB, call:iface:\(kvm\.ContractRef\)\.Address\(caller\)\) \+ const:1\)\)$`)
-		n := len(findInstrs(fn, bump))
-		c.Check("O", fnName(fn)+"/exactly one creator nonce bump", n == 1, fn.Pos(), n, "")
-		c.Precedes(fn, "creator nonce bump", bump, "StateDB.Snapshot() (the bump must survive a failed creation)", snap)
-		c.Guarded(fn, "creator nonce bump", bump, G("depth within the limit", Cmp(`^kvm\.depth$`, "<=", `^const:\d+$`)), G("CanTransfer", True(`CanTransfer\(`)))
-	}
+	c.frameRules()
 	if fn := c.Fn("kai/state", "StateDB", "Suicide"); fn != nil {
 		zero := func(in ssa.Instruction) bool {
 			st, ok := in.(*ssa.Store)
@@ -461,4 +428,118 @@ func callsInSlice(v ssa.Value, calleeRe string) []*ssa.Call {
 	}
 	walk(v, 0)
 	return out
+}
+
+// frameRules: every call-frame function snapshots before it mutates, reverts to its own snapshot, and every error the
+// frame can end with lies behind that revert.
+func (c *Ctx) frameRules() {
+	// ---- call frames -----------------------------------------------------------------------------------
+	snap := CallTo(`^iface:\(kvm\.StateDB\)\.Snapshot$`, "")
+	revert := CallTo(`^iface:\(kvm\.StateDB\)\.RevertToSnapshot$`, "")
+	mutate := Or(CallTo(`^iface:\(kvm\.StateDB\)\.(CreateAccount|SetCode|AddBalance|SubBalance|SetState|Suicide)$`, ""), CallTo(`^\(\*kvm\.KVM\)\.Transfer$|^kvm\.run$`, ""), CallTo(`dyn:kvm\.BlockContext\.Transfer`, ""))
+	for _, name := range []string{"Call", "CallCode", "DelegateCall", "StaticCall", "create"} {
+		fn := c.Fn("kvm", "KVM", name)
+		if fn == nil {
+			continue
+		}
+		c.Precedes(fn, "StateDB.Snapshot()", snap, "state mutation / run", func(in ssa.Instruction) bool {
+			if !mutate(in) {
+				return false
+			}
+			// create bumps the creator's nonce before the snapshot on purpose (it survives a failed creation)
+			return true
+		})
+		c.AtMostOncePerPath(fn, "Snapshot", snap)
+		snaps := findInstrs(fn, snap)
+		if len(snaps) == 1 {
+			sv := pathOf(snaps[0].(*ssa.Call))
+			for _, in := range findInstrs(fn, revert) {
+				a := argPaths(callCommon(in))
+				c.Check("F", fnName(fn)+"/reverts to its own snapshot", len(a) == 2 && a[1] == sv, instrPos(in), 1, describeInstr(in))
+			}
+		}
+		c.errorExitsRevert(fn, revert)
+		c.frameErrorsRevert(fn, snap, revert)
+	}
+	if fn := c.Fn("kvm", "KVM", "create"); fn != nil {
+		bump := CallTo(`^iface:\(kvm\.StateDB\)\.SetNonce$`, `SetNonce\(kvm\.StateDB, call:iface:\(kvm\.ContractRef\)\.Address\(caller\), \(call:iface:\(kvm\.StateDB\)\.GetNonce\(kvm\.StateDB, call:iface:\(kvm\.ContractRef\)\.Address\(caller\)\) \+ const:1\)\)$`)
+		n := len(findInstrs(fn, bump))
+		c.Check("O", fnName(fn)+"/exactly one creator nonce bump", n == 1, fn.Pos(), n, "")
+		c.Precedes(fn, "creator nonce bump", bump, "StateDB.Snapshot() (the bump must survive a failed creation)", snap)
+		c.Guarded(fn, "creator nonce bump", bump, G("depth within the limit", Cmp(`^kvm\.depth$`, "<=", `^const:\d+$`)), G("CanTransfer", True(`CanTransfer\(`)))
+	}
+}
+
+// frameErrorsRevert: an error value introduced after the snapshot (a literal package error assigned or returned) is
+// never carried to the return on a path that skipped RevertToSnapshot.
+func (c *Ctx) frameErrorsRevert(fn *ssa.Function, snap, revert SinkSel) {
+	snaps := findInstrs(fn, snap)
+	if len(snaps) != 1 {
+		return
+	}
+	sn := snaps[0]
+	key := fnName(fn) + "/every error introduced after the snapshot is returned only after RevertToSnapshot"
+	n := 0
+	isLit := func(v ssa.Value) bool {
+		isNil, known := nilClass(v)
+		return known && !isNil
+	}
+	for _, in := range findInstrs(fn, AnyReturn()) {
+		r := in.(*ssa.Return)
+		if len(r.Results) == 0 {
+			continue
+		}
+		ev := r.Results[len(r.Results)-1]
+		// direct literal return
+		if isLit(ev) {
+			w := &Walker{P: c.P, Stop: revert}
+			if hit, found := w.Reach(fn, sn.Block(), instrIndex(sn)+1, func(x ssa.Instruction) bool { return x == in }); found {
+				c.Bad("O", key, instrPos(in), 1, describeInstr(in)+" is reachable from the snapshot without RevertToSnapshot; path "+c.P.pathStr(hit.Path))
+				return
+			}
+			n++
+			continue
+		}
+		// literal errors merged into the returned value
+		seen := map[*ssa.Phi]bool{}
+		var visit func(v ssa.Value) bool
+		visit = func(v ssa.Value) bool {
+			phi, ok := v.(*ssa.Phi)
+			if !ok || seen[phi] {
+				return true
+			}
+			seen[phi] = true
+			for i, e := range phi.Edges {
+				if i >= len(phi.Block().Preds) {
+					continue
+				}
+				if !isLit(e) {
+					if !visit(e) {
+						return false
+					}
+					continue
+				}
+				pred := phi.Block().Preds[i]
+				last := pred.Instrs[len(pred.Instrs)-1]
+				n++
+				wb := &Walker{P: c.P, Stop: revert}
+				_, before := wb.Reach(fn, sn.Block(), instrIndex(sn)+1, func(x ssa.Instruction) bool { return x == last })
+				if !before {
+					continue
+				}
+				// continue from the merge block with the fact that this phi is non-nil
+				wa := &Walker{P: c.P, Stop: revert, StartFacts: factAdd("", fmt.Sprintf("nil:%p", phi), false)}
+				hit, after := wa.Reach(fn, phi.Block(), 0, func(x ssa.Instruction) bool { return x == in })
+				if after {
+					c.Bad("O", key, instrPos(last), 1, fmt.Sprintf("the error %s assigned at %s reaches the return at %s on a path without RevertToSnapshot (%s): the failed frame keeps its state changes", pathOf(e), c.P.Pos(instrPos(last)), c.P.Pos(instrPos(in)), c.P.pathStr(hit.Path)))
+					return false
+				}
+			}
+			return true
+		}
+		if !visit(ev) {
+			return
+		}
+	}
+	c.Check("O", key, true, fn.Pos(), n, "")
 }
